@@ -32,7 +32,19 @@ func (e *Encoder) runSites(selector string, st *State, pc string, extra map[stri
 	for k, v := range extra {
 		env.vars[k] = v
 	}
+	// the ghost counters of the monitors held at this point are visible by name
+	for _, h := range e.held {
+		for i, n := range h.mr.m.Counters {
+			if _, taken := env.vars[n]; !taken {
+				env.vars[n] = Val{T: types.Typ[types.Uint64], S: e.ctrTotal(st, h.recv, i)}
+			}
+		}
+	}
 	for _, s := range specs {
+		if s.Kind == "ghost" {
+			e.ghostAction(s.C.Text, st, pc)
+			continue
+		}
 		f, err := env.ElabBool(s.C.E)
 		if err != nil {
 			e.errs = append(e.errs, fmt.Sprintf("site %s %q: %v", selector, s.C.Text, err))
@@ -58,7 +70,7 @@ func (e *Encoder) siteAsserts(what, sname string, st *State, pc string, args []V
 	e.runSites(sname, st, pc, extra)
 }
 
-func (e *Encoder) siteStore(in *ssa.Store, st *State, pc string) {
+func (e *Encoder) siteStore(in *ssa.Store, st *State, pc string, prev *Val) {
 	// store <field>#k for stores through a FieldAddr
 	if al, ok := in.Addr.(*ssa.Alloc); ok && al.Comment != "" && al.Heap {
 		// store <var>#k for assignments to a captured / escaping local variable
@@ -80,7 +92,11 @@ func (e *Encoder) siteStore(in *ssa.Store, st *State, pc string) {
 	}
 	name := stt.Field(fa.Field).Name()
 	sname := e.siteName("store", name)
-	e.runSites(sname, st, pc, map[string]Val{"val": e.val(in.Val), "recv": e.val(fa.X)})
+	extra := map[string]Val{"val": e.val(in.Val), "recv": e.val(fa.X)}
+	if prev != nil {
+		extra["prev"] = *prev
+	}
+	e.runSites(sname, st, pc, extra)
 }
 
 func (e *Encoder) siteMapUpdate(in *ssa.MapUpdate, st *State, pc string) {
@@ -94,7 +110,7 @@ func (e *Encoder) siteMapUpdate(in *ssa.MapUpdate, st *State, pc string) {
 		}
 	}
 	sname := e.siteName("mapupdate", what)
-	e.runSites(sname, st, pc, map[string]Val{"key": e.val(in.Key), "val": e.val(in.Value), "map": e.val(in.Map)})
+	e.runSites(sname, st, pc, map[string]Val{"key": e.val(in.Key), "mapkey": e.val(in.Key), "val": e.val(in.Value), "map": e.val(in.Map)})
 }
 
 // lockEvent / atomicEvent are hooks for the monitor and atomic-transition disciplines.
